@@ -76,6 +76,15 @@ CHECKS = {
          "gen/meta.py applies nine source-level transformations (add filter, deeper recursion, make optional, parameter<->filter, = <-> one_of, filter/negation partition, renaming, sibling property / edge reordering) to the semantic universe; "
          "TLC evaluates the predicted bag relation on Sem's rows (validating the specification against spec.md's equivalences) and on the rows the real engine returned.",
          "Side conditions (outside folds / optional scopes) are part of the transformation; cases the frontend rejects or with > 40 rows are skipped and counted."),
+ "C11": (MC, "6/C11", "TLC judge (JudgeIR): the eight structural clauses evaluated on the IR exported from every compiled query, plus agreement with the pre-order numbering of the source AST",
+         "For every query the real frontend accepts, TLC evaluates on the exported IR: edge i -> vertex i+1; every vid/eid in exactly one component, numbered 1..n; folds precede their contents; edges go from lower to higher vids; "
+         "tags (and fold-count tags) are defined before their uses; each fold's imported_tags equal, as sets, the tags of its enclosing component used anywhere below it; every variable use carries a type that the query-level variable type is a subtype of; "
+         "vertex k is the k-th scope of the source query in pre-order with the expected type, edge name, fold / optional / recursion flags.",
+         "'Imported tags' is read as the IR documents it (tags of the directly enclosing component; outer ones are inherited through contexts). Bounded by the generated universe."),
+ "C12": (MC, "6/C12", "TLC judge (ArgCheck.tla): accept iff complete, no extras and every value Fits its inferred type; the error must name exactly the offending variables",
+         "For every compiled query with variables: the valid map, the empty map, each variable dropped, extra names, each variable replaced by each of 17 values of every kind and nesting, and two bad values at once are given to the real "
+         "InterpretedQuery::from_query_and_arguments; TLC compares accept/reject and the named missing / unused / ill-typed variables with ArgCheck.tla.",
+         "Enum argument values are not in the universe (the crate does not support them: D10, see DESIGN section 8)."),
 }
 NOT_YET ="check not built yet at this commit (see DESIGN.md section 6 for the planned decision procedure)"
 
